@@ -84,9 +84,18 @@ func refNonFatal(prios []uint, d div2.Divider, q uint) bool {
 
 func shuffled(prios []uint, k int) []uint {
 	// the helpers sort a copy themselves: pass the priorities in another order
+	// (k%3: descending as given, ascending, rotated so that the lowest is not last)
 	out := append([]uint(nil), prios...)
-	if k%2 == 1 {
+	switch k % 3 {
+	case 1:
 		sort.Slice(out, func(i, j int) bool { return out[i] < out[j] })
+	case 2:
+		if len(out) > 1 {
+			out = append(out[1:], out[0])
+			if len(out) > 2 {
+				out[0], out[len(out)-2] = out[len(out)-2], out[0]
+			}
+		}
 	}
 	return out
 }
@@ -134,8 +143,8 @@ func checkUtils(quick bool) []*result {
 				prev := false
 				for _, l := range limits {
 					s.evals++
-					su2 := utils2.IsSuitableConfig(prios, dp.v2, q, l)
-					su1 := prio1.IsSuitableConfig(prios, dp.v1, q, l)
+					su2 := utils2.IsSuitableConfig(shuffled(prios, i+1), dp.v2, q, l)
+					su1 := prio1.IsSuitableConfig(shuffled(prios, i), dp.v1, q, l)
 					if su2 != su1 {
 						s.fail("v1 and v2 IsSuitableConfig differ", fmt.Sprintf("IsSuitableConfig(%v, %s, %d, %v)", prios, dp.name, q, l), fmt.Sprintf("v2 %v v1 %v", su2, su1), "")
 					}
@@ -160,38 +169,38 @@ func checkUtils(quick bool) []*result {
 						maxRef = q
 					}
 				}
-				if g := utils2.PickUpMinNonFatalQuantity(prios, dp.v2, max); g != minRef {
+				if g := utils2.PickUpMinNonFatalQuantity(shuffled(prios, i+1), dp.v2, max); g != minRef {
 					s.fail(fmt.Sprintf("PickUpMinNonFatalQuantity = %d, smallest non-fatal quantity in [1,%d] by definition is %d", g, max, minRef), fmt.Sprintf("PickUpMinNonFatalQuantity(%v, %s, %d)", prios, dp.name, max), fmt.Sprint(g), "")
 				}
-				if g := utils2.PickUpMaxNonFatalQuantity(prios, dp.v2, max); g != maxRef {
+				if g := utils2.PickUpMaxNonFatalQuantity(shuffled(prios, i+1), dp.v2, max); g != maxRef {
 					s.fail(fmt.Sprintf("PickUpMaxNonFatalQuantity = %d, largest non-fatal quantity in [1,%d] by definition is %d", g, max, maxRef), fmt.Sprintf("PickUpMaxNonFatalQuantity(%v, %s, %d)", prios, dp.name, max), fmt.Sprint(g), "")
 				}
-				if g := prio1.PickUpMinNonFatalQuantity(prios, dp.v1, max); g != minRef {
+				if g := prio1.PickUpMinNonFatalQuantity(shuffled(prios, i+1), dp.v1, max); g != minRef {
 					s.fail(fmt.Sprintf("v1 PickUpMinNonFatalQuantity = %d, by definition %d", g, minRef), fmt.Sprintf("PickUpMinNonFatalQuantity(%v, %s, %d)", prios, dp.name, max), fmt.Sprint(g), "")
 				}
-				if g := prio1.PickUpMaxNonFatalQuantity(prios, dp.v1, max); g != maxRef {
+				if g := prio1.PickUpMaxNonFatalQuantity(shuffled(prios, i+1), dp.v1, max); g != maxRef {
 					s.fail(fmt.Sprintf("v1 PickUpMaxNonFatalQuantity = %d, by definition %d", g, maxRef), fmt.Sprintf("PickUpMaxNonFatalQuantity(%v, %s, %d)", prios, dp.name, max), fmt.Sprint(g), "")
 				}
 				for _, l := range []float64{5, 25, 100} {
 					smin, smax := uint(0), uint(0)
 					for q := uint(1); q <= max; q++ {
-						if utils2.IsSuitableConfig(prios, dp.v2, q, l) {
+						if utils2.IsSuitableConfig(shuffled(prios, i+1), dp.v2, q, l) {
 							if smin == 0 {
 								smin = q
 							}
 							smax = q
 						}
 					}
-					if g := utils2.PickUpMinSuitableQuantity(prios, dp.v2, max, l); g != smin {
+					if g := utils2.PickUpMinSuitableQuantity(shuffled(prios, i+1), dp.v2, max, l); g != smin {
 						s.fail(fmt.Sprintf("PickUpMinSuitableQuantity = %d, scan of IsSuitableConfig gives %d", g, smin), fmt.Sprintf("PickUpMinSuitableQuantity(%v, %s, %d, %v)", prios, dp.name, max, l), fmt.Sprint(g), "")
 					}
-					if g := utils2.PickUpMaxSuitableQuantity(prios, dp.v2, max, l); g != smax {
+					if g := utils2.PickUpMaxSuitableQuantity(shuffled(prios, i+1), dp.v2, max, l); g != smax {
 						s.fail(fmt.Sprintf("PickUpMaxSuitableQuantity = %d, scan of IsSuitableConfig gives %d", g, smax), fmt.Sprintf("PickUpMaxSuitableQuantity(%v, %s, %d, %v)", prios, dp.name, max, l), fmt.Sprint(g), "")
 					}
-					if g := prio1.PickUpMinSuitableQuantity(prios, dp.v1, max, l); g != smin {
+					if g := prio1.PickUpMinSuitableQuantity(shuffled(prios, i), dp.v1, max, l); g != smin {
 						s.fail(fmt.Sprintf("v1 PickUpMinSuitableQuantity = %d, scan gives %d", g, smin), fmt.Sprintf("PickUpMinSuitableQuantity(%v, %s, %d, %v)", prios, dp.name, max, l), fmt.Sprint(g), "")
 					}
-					if g := prio1.PickUpMaxSuitableQuantity(prios, dp.v1, max, l); g != smax {
+					if g := prio1.PickUpMaxSuitableQuantity(shuffled(prios, i), dp.v1, max, l); g != smax {
 						s.fail(fmt.Sprintf("v1 PickUpMaxSuitableQuantity = %d, scan gives %d", g, smax), fmt.Sprintf("PickUpMaxSuitableQuantity(%v, %s, %d, %v)", prios, dp.name, max, l), fmt.Sprint(g), "")
 					}
 				}
